@@ -638,7 +638,7 @@ iwrc iwlist_unshift(IWLIST *list, const void *data, size_t data_size) {
       list->array = nptr;
     }
     list->start = list->anum - list->num;
-    memmove(list->array + list->start, list->array, list->anum * sizeof(list->array[0]));
+    memmove(list->array + list->start, list->array, list->num * sizeof(list->array[0]));
   }
   size_t index = list->start - 1;
   list->array[index].val = malloc(data_size + 1);
